@@ -43,6 +43,10 @@ def scenarios(ctx: Ctx):
         {"n": 1, "dups": [0], "block": [], "limit": 1, "actors": 2, "run": True},
         {"n": 2, "dups": [1], "block": [0], "limit": 1, "actors": 2, "run": True},
     ]
+    # an invocation being handed back (recovery's reroute: PENDING_RECOVERY -> REROUTED + push) while two pollers already
+    # hold duplicate messages of it: the release and the two claims all go through the same per-invocation lock
+    base.append({"n": 1, "dups": [0, 0], "block": [], "limit": 1, "actors": 2, "run": False, "release": True,
+                 "budget": 2600, "preemptions": 3})
     if ctx.thorough:
         base += [{"n": 3, "dups": [0, 2], "block": [1], "limit": 2, "actors": 3, "run": True},
                  {"n": 2, "dups": [0, 0], "block": [], "limit": 2, "actors": 4, "run": False}]
@@ -57,6 +61,11 @@ def run_one(kind, scratch, sc, prefix, chooser=None):
     t = w.task(tasks_conc.work)
     invs = [t(i) for i in range(sc["n"])]
     ids = [i.invocation_id for i in invs]
+    if sc.get("release"):
+        from pynenc.invocation.status import InvocationStatus as St
+        got = [g.invocation_id for g in w.app.orchestrator.get_invocations_to_run(1, world.runner_ctx("r9"))]
+        assert got == ids[:1]
+        w.app.orchestrator.set_invocation_status(ids[0], St.PENDING_RECOVERY, world.runner_ctx("rec"))
     for d in sc["dups"]:
         w.app.broker.route_invocation(ids[d])
     for b in sc["block"]:
@@ -71,6 +80,8 @@ def run_one(kind, scratch, sc, prefix, chooser=None):
                 s.yield_point(_name)
                 return _real(*a, **k)
             setattr(obj, name, wrapped)
+    if sc.get("release"):
+        s.spawn("rel", lambda: w.app.orchestrator.reroute_invocations({ids[0]}, world.runner_ctx("rec")))
     for k in range(sc["actors"]):
         body = w.polling_runner(f"r{k}", sc["limit"], outs[k]) if sc["run"] else w.poller(f"r{k}", sc["limit"], outs[k])
         s.spawn(f"r{k}", body)
@@ -132,13 +143,17 @@ def main(ctx: Ctx) -> int:
     scratch = world.scratch_dir()
     total, per = 0, {}
     try:
+        # "only its holder can move it": every (current status, owner) x request x requester single step on the pure function
+        # and on both orchestrators against the documented transition function (exhaustive; shared with C01)
+        from harness.props import c01
+        c01.run_single_steps(ctx, scratch)
         for kind in ("sqlite", "mem"):
             for sc in scenarios(ctx):
                 n = 0
                 if sc["actors"] <= 2:
-                    budget = 1500 if ctx.thorough else 220
-                    it = S.explore(lambda p: run_one(kind, scratch, sc, p), max_preemptions=3 if ctx.thorough else 2, max_runs=budget,
-                                   preempt_at=critical)
+                    budget = (sc.get("budget") if (kind == "mem" or ctx.thorough) else None) or (1500 if ctx.thorough else 220)
+                    it = S.explore(lambda p: run_one(kind, scratch, sc, p), max_preemptions=sc.get("preemptions") or (3 if ctx.thorough else 2),
+                                   max_runs=budget, preempt_at=critical)
                 else:
                     def rand_runs():
                         for _ in range(150):
@@ -171,6 +186,9 @@ def replay(ctx: Ctx, path: str) -> int:
     world.quiet()
     EDGES = D.doc_edges(ctx)
     rp = json.load(open(path))["replay"]
+    if rp.get("kind") == "single_step":
+        from harness.props import c01
+        return c01.replay(ctx, path)
     scratch = world.scratch_dir()
     try:
         _, out = run_one(rp["backend"], scratch, rp["scenario"], rp["schedule"])
